@@ -96,12 +96,26 @@ func (p Plugin) CalculateRealloc(ctx context.Context, nodename string, resource 
 	var numaMemory cpumemtypes.NUMAMemory
 
 	if req.CPUBind {
-		cpuPlans := schedule.GetCPUPlans(nodeResourceInfo, originResource.CPUMap, p.config.Scheduler.ShareBase, p.config.Scheduler.MaxShare, newReq)
-		if len(cpuPlans) == 0 {
-			return nil, coretypes.ErrInsufficientResource
+		var cpuPlan *cpumemtypes.CPUPlan
+		// nothing about the cpu changes: stay on the same cores as long as the memory still fits there
+		if req.CPURequest == 0 && len(originResource.CPUMap) > 0 {
+			availableResource := nodeResourceInfo.GetAvailableResource()
+			fits := newReq.MemRequest <= availableResource.Memory
+			if len(originResource.NUMANode) > 0 {
+				fits = fits && newReq.MemRequest <= availableResource.NUMAMemory[originResource.NUMANode]
+			}
+			if fits {
+				cpuPlan = &cpumemtypes.CPUPlan{NUMANode: originResource.NUMANode, CPUMap: originResource.CPUMap}
+			}
+		}
+		if cpuPlan == nil {
+			cpuPlans := schedule.GetCPUPlans(nodeResourceInfo, originResource.CPUMap, p.config.Scheduler.ShareBase, p.config.Scheduler.MaxShare, newReq)
+			if len(cpuPlans) == 0 {
+				return nil, coretypes.ErrInsufficientResource
+			}
+			cpuPlan = cpuPlans[0]
 		}
 
-		cpuPlan := cpuPlans[0]
 		cpuMap = cpuPlan.CPUMap
 		numaNodeID = cpuPlan.NUMANode
 		if len(numaNodeID) > 0 {
